@@ -279,9 +279,7 @@ func (dec *Decoder) Read(t reflect.Type, tag ...byte) (result interface{}) {
 
 // Reset the value reference and struct type reference.
 func (dec *Decoder) Reset() *Decoder {
-	if !dec.IsSimple() {
-		dec.refer.Reset()
-	}
+	dec.refer.Reset()
 	dec.ref = dec.ref[:0]
 	return dec
 }
